@@ -242,10 +242,13 @@ Proof.
   intros o p o' ok fid H. unfold file_create in H.
   destruct (os_open o p) as [o1 [fd|]] eqn:E.
   - pose proof (os_open_ok _ _ _ _ E) as (_ & _ & _ & _ & _ & Hf1 & _).
-    destruct (os_close_frame (log o1 (ELock fd false)) (Some fd)) as (_ & Hn & _).
-    remember (os_close (log o1 (ELock fd false)) (Some fd)) as oc.
-    destruct (cscr o (nopen o)); cbv zeta in H; inversion H; subst o' ok fid; simpl; auto.
-    rewrite Hn. simpl. now rewrite Hf1.
+    assert (C : forall o2, nfail (bump_fail (os_close o2 (Some fd))) = S (nfail o2)).
+    { intros o2. destruct (os_close_frame o2 (Some fd)) as (_ & Hn & _). unfold bump_fail. cbn [nfail]. now rewrite Hn. }
+    destruct (cscr o (nopen o)); cbv zeta in H; injection H as <- <- <-.
+    + simpl. exact Hf1.
+    + simpl. exact Hf1.
+    + etransitivity; [exact (C (log o1 (ELock fd false)))|]. simpl. now rewrite Hf1.                          (* flock failed *)
+    + etransitivity; [exact (C (log (log o1 (ELock fd true)) (ETrunc fd false)))|]. simpl. now rewrite Hf1.    (* ftruncate failed *)
   - apply os_open_fail in E. destruct E as (_ & _ & _ & _ & Hf & _). inversion H; subst. simpl. now rewrite Hf.
 Qed.
 
@@ -755,7 +758,7 @@ Proof.
   apply ledger_prefix in HL. destruct HL as (own1 & H1 & H2). cbn [ledger] in H2.
   destruct (ledger_step own1 e) as [own2|] eqn:E; [|discriminate].
   assert (G : exists fd, fdarg = Some fd /\ memb fd own1 = true).
-  { destruct e as [p r | n ok | [n|] off len r | [n|] ok | n | n]; cbn [targets ledger_step] in *; try discriminate;
+  { destruct e as [p r | n ok | n ok | [n|] off len r | [n|] ok | n | n]; cbn [targets ledger_step] in *; try discriminate;
       inversion HT; subst; try discriminate; destruct (memb n own1) eqn:M; try discriminate; eauto. }
   destruct G as (fd & -> & M). exists fd. split; auto.
   destruct (ledger_counts t1 [] own1 fd (NoDup_nil _) H1) as [_ C]. rewrite M in C. cbn [memb existsb] in C.
